@@ -27,20 +27,29 @@ type sinkCollector struct {
 	mu   sync.Mutex
 	got  [][]byte
 	stop chan struct{}
+	sync chan chan struct{}
 	done chan struct{}
 }
 
+// newCollector starts a goroutine that keeps emptying the sink's socket queue (so that it cannot overflow).
 func newCollector() *sinkCollector {
-	c := &sinkCollector{s: newUDPSink(), stop: make(chan struct{}), done: make(chan struct{})}
+	c := &sinkCollector{s: newUDPSink(), stop: make(chan struct{}), sync: make(chan chan struct{}), done: make(chan struct{})}
 	go func() {
 		defer close(c.done)
 		for {
 			select {
 			case <-c.stop:
+				c.got = append(c.got, c.s.drain(0)...)
 				return
+			case ack := <-c.sync:
+				c.mu.Lock()
+				c.got = append(c.got, c.s.drain(0)...)
+				c.mu.Unlock()
+				close(ack)
+				continue
 			default:
 			}
-			ds := c.s.drain(2 * time.Millisecond)
+			ds := c.s.drain(500 * time.Microsecond)
 			if len(ds) > 0 {
 				c.mu.Lock()
 				c.got = append(c.got, ds...)
@@ -51,7 +60,15 @@ func newCollector() *sinkCollector {
 	return c
 }
 
+// take returns everything that has reached the sink's socket queue by now (loopback sends are synchronous:
+// what a call sent before it returned is in that queue).
 func (c *sinkCollector) take() [][]byte {
+	ack := make(chan struct{})
+	select {
+	case c.sync <- ack:
+		<-ack
+	case <-c.done:
+	}
 	c.mu.Lock()
 	defer c.mu.Unlock()
 	g := c.got
